@@ -169,7 +169,10 @@ def mk_css(K, first, second, rot):
                     return 'after_offset_differs'
                 i = r.children.index(d)
                 before = r.brace + 1 if i == 0 else r.children[i - 1].end
-                if i > 0 and r.children[i - 1].kind == 'stmt':
+                j = i - 1
+                while j >= 0 and r.children[j].kind == 'rule':
+                    j -= 1          # nested rules between the statement and this declaration do not reset the library's marker either
+                if i > 0 and j >= 0 and r.children[j].kind == 'stmt':
                     # after a value-less statement the library starts `before` at the next name; the property does not say:
                     # anything from the end of the statement to the name start is accepted
                     if not (before <= p.before <= d.start):
